@@ -22,6 +22,9 @@ inductive TiltEl (R : Type) where
   | angular (xArg yArg : R)
   /-- `lentil.DispersiveTilt(trace=[t0, t1], dispersion=[d0, d1])` (both first order) -/
   | dispersive1 (t0 t1 d0 d1 : R)
+  /-- `lentil.DispersiveTilt(trace, dispersion)` of any order, given the abscissa `x` the numerical branches return for the wavelength
+  (contract `C04.DispersiveSolved`: root of the generated residuals); the displacement is the generated tail `(x, polyval(trace, x))` -/
+  | dispersiveN (trace : List R) (x : R)
 
 variable {R : Type}
 
@@ -36,6 +39,7 @@ def TiltEl.shift (e : TiltEl R) (xs ys z wl : R) : R × R :=
   match e with
   | .angular xArg yArg => Gen.tiltShift xArg yArg xs ys z
   | .dispersive1 t0 t1 d0 d1 => Gen.dispersiveShift1 RealLike.sqrt (RealLike.ofInt 1) t0 t1 d0 d1 wl xs ys
+  | .dispersiveN trace x => Gen.dispersiveTail polyval trace x xs ys
 
 /-- the loop of `Field.shift`: `x, y = 0, 0; for tilt in self.tilt: x, y = tilt.shift(xs=x, ys=y, ...)` -/
 def foldShift (ts : List (TiltEl R)) (z wl : R) : R × R :=
